@@ -92,6 +92,17 @@ fn docs() -> Vec<Doc> {
         e("aa-first", "    kind: number\n"),
         e("zz-last", "    kind: call_expression\n    has:\n      stopBy: end\n      any:\n        - matches: is-literal\n        - kind: regex\n")])],
       tail: "".into(), class: "" },
+    // a rewriter runs on the variables the MATCH bound: the rule's other transformations - computed before or after the
+    // `rewrite`, in whatever order the map yields them - are not visible inside it (`$$$NAME` there expands to nothing)
+    Doc { head: "id: t9\nlanguage: TypeScript\nmessage: rewriter next to independent transformations $NEW\nrule:\n  pattern: $F($$$ARGS)\n".into(),
+      maps: vec![
+        ("constraints".into(), vec![e("F", "    regex: '^qux$'\n")]),
+        ("transform".into(), vec![
+          e("NAME", "    convert:\n      source: $F\n      toCase: upperCase\n"),
+          e("NEW", "    rewrite:\n      source: $$$ARGS\n      rewriters: [tag]\n      joinBy: ', '\n"),
+          e("AA", "    substring:\n      source: $F\n      endChar: 2\n"),
+          e("ZZ", "    replace:\n      source: $F\n      replace: q\n      by: Q\n")])],
+      tail: "rewriters:\n- id: tag\n  rule:\n    kind: number\n    pattern: $N\n  fix: '$$$NAME($N)$$$AA$$$ZZ'\nfix: call($NEW, $NAME)\n".into(), class: "" },
     Doc { head: "id: t7\nlanguage: TypeScript\nmessage: relational reference 2\nrule:\n  any:\n    - matches: zz-call\n    - matches: in-call\n".into(),
       maps: vec![("utils".into(), vec![
         e("in-call", "    kind: number\n    has:\n      stopBy: end\n      any:\n        - matches: log-call\n        - kind: new_expression\n"),
@@ -353,7 +364,7 @@ pub fn run(o: &Opts) {
     std::fs::write(p.join("sgconfig.yml"), "ruleDirs: [rules]\ntestConfigs:\n  - testDir: tests\n").unwrap();
     for d in ds.iter().filter(|d| d.class.is_empty()) {
       let id = d.head.lines().next().unwrap().replace("id: ", "");
-      let invalid: Vec<&str> = match id.as_str() { "t1" => vec!["foo(abc, 12)", "foo(abx, 3)"], "t2" => vec!["qux(7, 'k', 8)"], "t3" => vec!["f(x, x)"], "t6" => vec!["console.log(1)"], "t7" => vec!["qux(7, 'k', 8)"], "t8" => vec!["qux(7, 'k', 8)"], _ => vec!["bar([1, 's', 2], 3)"] };
+      let invalid: Vec<&str> = match id.as_str() { "t1" => vec!["foo(abc, 12)", "foo(abx, 3)"], "t2" => vec!["qux(7, 'k', 8)"], "t3" => vec!["f(x, x)"], "t6" => vec!["console.log(1)"], "t7" => vec!["qux(7, 'k', 8)"], "t8" => vec!["qux(7, 'k', 8)"], "t9" => vec!["qux(7, 'k', 8)"], _ => vec!["bar([1, 's', 2], 3)"] };
       std::fs::write(p.join(format!("tests/{id}-test.yml")), format!("id: {id}\nvalid:\n  - \"nothing()\"\ninvalid:\n{}", invalid.iter().map(|s| format!("  - {}\n", serde_json::to_string(s).unwrap())).collect::<String>())).unwrap();
     }
     let snap = |p: &std::path::Path| -> BTreeMap<String, Vec<u8>> {
